@@ -46,6 +46,11 @@ POOL = [
     "typedef int T;\n#line 100\nT l4;\n# 7\nT l5;",
     '# 3 "inc.h"\nint l6;\n#line 100\nint l7;\n# 7\nint l8;',
     "#pragma once\n#line 100\nvoid l9(void) { T }",
+    # far deeper than the interpreter's recursion limit allows (RecursionError alone
+    # and under every schedule today): anything a parse does to interpreter-wide
+    # settings while it runs shows when another parse overlaps it
+    "int deep1 = " + "(" * 400 + "1" + ")" * 400 + ";",
+    "void deep2(void) { " + "{ " * 300 + "} " * 300 + "}",
 ]
 SHORT_PAIRS = [
     ("typedef int T ;", "int a = T ;"),
@@ -68,33 +73,49 @@ class _Abort(BaseException):
 class Controller:
     """Runs n workers, each calling self.step(i) at its yield points; the
     controller grants steps following `schedule` (indices into the list of
-    live workers)."""
+    live workers).
+
+    Only raw locks and plain assignments are used for the hand-over: a worker
+    may be thousands of frames deep inside the parser, and anything that runs
+    Python-level code while holding a shared lock (threading.Condition does)
+    would leave that lock held for ever if a RecursionError hit it there."""
+
+    STALL_SECONDS = 8.0
 
     def __init__(self, n):
-        self.cv = threading.Condition()
         self.n = n
-        self.cur = None
-        self.done = [False] * n
-        self.waiting = [False] * n
+        self.state = ["running"] * n  # running | waiting | done
+        self.turn = [threading.Lock() for _ in range(n)]
+        for t in self.turn:
+            t.acquire()
+        self.wake = threading.Lock()  # poked by workers, slept on by the controller
+        self.wake.acquire()
         self.trace = []
         self.context_switches = 0
         self.abort = False
 
-    STALL_SECONDS = 8.0
+    def _poke(self):
+        try:
+            self.wake.release()
+        except RuntimeError:
+            pass  # already poked
 
     def step(self, i):
+        self.state[i] = "waiting"
+        self._poke()
+        if self.abort or not self.turn[i].acquire(True, 2 * self.STALL_SECONDS) or self.abort:
+            raise _Abort()
+        # (state[i] was set to "running" by the controller before it released turn[i])
+
+    def _wait_until(self, ready):
         import time
 
-        with self.cv:
-            self.waiting[i] = True
-            self.cv.notify_all()
-            t0 = time.time()
-            while self.cur != i:
-                if self.abort or time.time() - t0 > 2 * self.STALL_SECONDS:
-                    raise _Abort()
-                self.cv.wait(1.0)
-            self.cur = None
-            self.waiting[i] = False
+        t0 = time.time()
+        while not ready():
+            self.wake.acquire(True, 0.05)
+            if time.time() - t0 > self.STALL_SECONDS:
+                return False
+        return True
 
     def run(self, workers, schedule):
         res = [None] * self.n
@@ -106,50 +127,40 @@ class Controller:
                 res[i] = ("stalled",)
             except BaseException as e:  # noqa: BLE001
                 res[i] = ("harness-exc", repr(e))
-            with self.cv:
-                self.done[i] = True
-                self.cv.notify_all()
+            self.state[i] = "done"
+            self._poke()
 
         ths = [threading.Thread(target=wrap, args=(i,), daemon=True) for i in range(self.n)]
         for t in ths:
             t.start()
-        import time
-
         k = 0
         last = None
         while True:
-            with self.cv:
-                t0 = time.time()
-                while not all(self.done[i] or self.waiting[i] for i in range(self.n)):
-                    self.cv.wait(1.0)
-                    if time.time() - t0 > self.STALL_SECONDS:
-                        # a worker neither finished nor reached a yield point: the
-                        # instances are entangled (or dead-locked on each other)
-                        self.abort = True
-                        self.cv.notify_all()
-                        break
-                if self.abort:
-                    break
-                live = [i for i in range(self.n) if not self.done[i]]
-                if not live:
-                    break
-                j = live[schedule[k % len(schedule)] % len(live)] if schedule else live[0]
-                k += 1
-                if last is not None and j != last:
-                    self.context_switches += 1
-                last = j
-                self.trace.append(j)
-                self.cur = j
-                self.cv.notify_all()
-                t0 = time.time()
-                while self.cur is not None and not self.done[j]:
-                    self.cv.wait(1.0)
-                    if time.time() - t0 > self.STALL_SECONDS:
-                        self.abort = True
-                        self.cv.notify_all()
-                        break
-                if self.abort:
-                    break
+            # a worker that neither finishes nor reaches a yield point: the
+            # instances are entangled (or dead-locked on each other)
+            if not self._wait_until(lambda: all(s != "running" for s in self.state)):
+                self.abort = True
+                break
+            live = [i for i in range(self.n) if self.state[i] != "done"]
+            if not live:
+                break
+            j = live[schedule[k % len(schedule)] % len(live)] if schedule else live[0]
+            k += 1
+            if last is not None and j != last:
+                self.context_switches += 1
+            last = j
+            self.trace.append(j)
+            self.state[j] = "running"
+            self.turn[j].release()
+            if not self._wait_until(lambda: self.state[j] != "running"):
+                self.abort = True
+                break
+        if self.abort:
+            for i in range(self.n):
+                try:
+                    self.turn[i].release()
+                except RuntimeError:
+                    pass
         for t in ths:
             t.join(2.0)
         return [("stalled",) if (r is None) else r for r in res]
